@@ -172,6 +172,25 @@ def run(tier, seed):
         except Exception as e:
             if alg in offered:
                 chk.violation(f"algorithm {alg} is offered by default but a registration using it is refused by default: {fw.classify_exc(e)}", f"default-algs offered-not-accepted {alg}", {"alg": alg, "offered": offered})
+    # ... and through the signed formats as well: whatever the format and whatever algorithm the statement itself is signed with,
+    # a credential algorithm that is not offered by default is not accepted by default
+    from harness import impl as _impl, regrun as _regrun
+    for fmt, akinds in (("packed-self", [None]), ("packed", ["ES256-P256", "RS256", "RS1"]), ("tpm", ["RS256", "ES256-P256", "RS1"])):
+        for alg, kind in sorted(kind_of.items()):
+            for ak in akinds:
+                if fmt == "tpm" and authsim.KINDS[kind][0] == "ed":
+                    continue
+                s2 = regsim.RScn(fmt, kind, ak or "ES256-P256")
+                try:
+                    pd2, reg2 = regsim.build(s2)
+                except Exception:
+                    continue
+                pol2 = _regrun.policy_of(dict(pd2, algs=None))
+                o2 = _impl.verify_reg(pol2, reg2.as_dict())
+                chk.evals += 1
+                if o2.startswith("OK") != (alg in offered):
+                    chk.violation(f"credential algorithm {alg} through a {fmt} statement (attestation key {ak}) is {'accepted' if o2.startswith('OK') else 'refused'} by default although it is {'not ' if alg not in offered else ''}offered by default",
+                                  f"default-algs {fmt} {alg} att={ak}", {"fmt": fmt, "credential_alg": alg, "attestation_key": ak, "offered": offered, "impl": o2[:120]})
     if sorted(accepted) != sorted(offered):
         chk.violation("algorithms accepted by default differ from those offered by default", "default-algs accepted-vs-offered",
                       {"offered": offered, "accepted_by_default": accepted, "how": "fmt=none registration per credential algorithm, verify_registration_response called without supported_pub_key_algs"})
